@@ -225,6 +225,20 @@ def codec_check(p, name, c):
                 probs.append("gate-for-gate functions differ")
     if probs:
         p.violation(f"codec:{kind}:silent:{types or probs[0].split(' ')[0]}", f"{probs[:2]}: {circ.describe(c)} -> {circ.describe(d)}", src + replay_body)
+        return
+    # the same bytes decoded again after the caller edited the first result: an independent, identical circuit
+    hist = ("d1=CE.decode_circuit(data)\nbefore=circ.snapshot(d1)\n"
+            "lab=[l for l in d1.gates][-1]\nd1.emplace_gate('edited_by_the_caller', __import__('cirbo.core.circuit', fromlist=['gate']).gate.NOT, (lab,))\nd1.set_outputs(list(d1.outputs)+['edited_by_the_caller'])\n"
+            "d2=CE.decode_circuit(data)\nbad=[] if circ.snapshot(d2)==before and d2 is not d1 else ['decoding the same bytes again gives ' + circ.describe(d2)]\n")
+    env_ = {"CE": CE, "circ": circ, "data": data}
+    try:
+        exec(hist, env_)  # noqa: S102
+        hbad = env_["bad"]
+    except Exception as e:  # noqa: BLE001
+        hbad = [f"raised {type(e).__name__}: {e}"]
+    if hbad:
+        p.violation(f"codec:{kind}:decode-twice", f"{hbad[:1]} after the first result was edited; first decode gave {circ.describe(d)}",
+                    src + "data=CE.encode_circuit(c)\n" + hist + "print(bad); sys.exit(1 if bad else 0)\n")
 
 
 def _storage_topological(c):
